@@ -16,8 +16,8 @@ import (
 )
 
 type vfAttack struct {
-	From  string `json:"from"`  // which side's outgoing line is rewritten: client or server (the other side is attacked)
-	Type  string `json:"type"`  // message type
+	From  string `json:"from"` // which side's outgoing line is rewritten: client or server (the other side is attacked)
+	Type  string `json:"type"` // message type
 	Occ   int    `json:"occurrence"`
 	Field string `json:"field"` // JSON field, "int" (whole integer payload), "ack-len", "ack-step", "raw"
 	Value string `json:"value"`
@@ -186,7 +186,7 @@ func vfAttackList() []vfAttack {
 			add(from, "SUCC", occ, "raw", "bad-b64", "trunc-b64", "trunc-json", "empty", "wrong-type", "json-array", "json-null", "long-line")
 			add(from, "SUCC", occ, "size", "-1", "9223372036854775807", "abc") // target-file reply of protocol 3/4
 			add(from, "SUCC", occ, "name", "JSON:5", "JSON:null", "BIG")
-			add(from, "SUCC", occ, "step", vfBoundary...)  // hash ack
+			add(from, "SUCC", occ, "step", vfBoundary...) // hash ack
 			add(from, "SUCC", occ, "match", "JSON:\"x\"")
 		}
 		add(from, "EXIT", 0, "raw", raws...)
